@@ -76,8 +76,8 @@ Definition kf (v : value) : bool := is_known v && known_and_false v.
 Definition consistent_bounds (r : refinement) : res unit :=
   match r with
   | RNum _ (Some lo) (Some hi) loInc hiInc =>
-      do ok <- (if negb (Bool.eqb loInc hiInc) then lt_v (v_of_numv lo) (v_of_numv hi)
-                else lte_v (v_of_numv lo) (v_of_numv hi));
+      do ok <- (if loInc && hiInc then lte_v (v_of_numv lo) (v_of_numv hi)
+                else lt_v (v_of_numv lo) (v_of_numv hi));
       if kf ok then Panic else Ok tt
   | _ => Ok tt
   end.
@@ -102,7 +102,8 @@ Definition rb_num_lower (b : builder) (mn : value) (inclusive : bool) : res buil
       | None => Panic
       | Some x =>
           let r' := match snd x with
-                    | IdNInf => RNum n lo hi loInc hiInc          (* min != NegativeInfinity fails: nothing stored *)
+                    | IdNInf => if inclusive then RNum n lo hi loInc hiInc   (* inclusive bound at the shared -Inf: no bound *)
+                                else RNum n (Some x) hi inclusive hiInc
                     | _ => RNum n (Some x) hi inclusive hiInc
                     end in
           do _ <- consistent_bounds r'; Ok (with_wip b r')
@@ -130,7 +131,8 @@ Definition rb_num_upper (b : builder) (mx : value) (inclusive : bool) : res buil
       | None => Panic
       | Some x =>
           let r' := match snd x with
-                    | IdPInf => RNum n lo hi loInc hiInc
+                    | IdPInf => if inclusive then RNum n lo hi loInc hiInc
+                                else RNum n lo (Some x) loInc inclusive
                     | _ => RNum n lo (Some x) loInc inclusive
                     end in
           do _ <- consistent_bounds r'; Ok (with_wip b r')
@@ -180,9 +182,7 @@ Definition rb_prefix_full (norm : str -> str) (b : builder) (prefix0 : str) : re
       let prefix := norm prefix0 in
       do _ <- (if is_known (b_orig b) && negb (is_null (b_orig b)) then
                  match vp (b_orig b) with
-                 | PStr have =>
-                     let k := Nat.min (length have) (length prefix) in
-                     if str_eqb (firstn k have) (firstn k prefix) then Ok tt else Panic
+                 | PStr have => if is_prefix prefix have then Ok tt else Panic
                  | _ => Panic
                  end
                else Ok tt);
